@@ -763,6 +763,8 @@ class GraphBuilder(BuilderBase):
 
         self.add_node(node)
         self._root._functions[function.identifier()] = function
+        # The model must import the function's domain (opset imports live on the root graph).
+        self._root._graph.opset_imports.setdefault(function.domain, 1)
 
         if len(node.outputs) == 0:
             return ()
